@@ -48,6 +48,8 @@ CONSTANTS Series, TimesRaw, TOff, Vals, Types, Apps,
                        \*              deferred behind a later sample of the same series): a restart replays the marker
           KFInitOpts,  \* TRUE: model the code's deviation KF-C02-1 (SetOptions on an initAppender is dropped)
           KFV1Hist,    \* TRUE: model the code's deviation KF-C02-2 (v1 AppendHistogram ignores DiscardOutOfOrder)
+          PreT,        \* raw times at which series "s1" already holds committed float samples of value 1 when the
+                       \*   history starts (saves the three steps needed to create them; {} = empty DB)
           Balanced,    \* TRUE (simulation): first draw the kind of the next action uniformly, then the action
           MaxOps, EmitMode
 
@@ -141,18 +143,24 @@ ExpList(st, s) == LET ts == SortedTimes({x.t : x \in st[s]}) IN
 ExpAll(st) == [s \in Series |-> ExpList(st, s)]
 
 -----------------------------------------------------------------------------
+PreSeq == LET ts == SortedTimes({x - TOff : x \in PreT}) IN [i \in 1..Len(ts) |-> [t |-> ts[i], v |-> 1, ty |-> "f"]]
+PreOf(s) == IF s = "s1" THEN PreSeq ELSE <<>>
+
 Init ==
-  /\ ino = [s \in Series |-> <<>>] /\ ooh = [s \in Series |-> <<>>] /\ oom = [s \in Series |-> {}]
+  /\ ino = [s \in Series |-> PreOf(s)] /\ ooh = [s \in Series |-> <<>>] /\ oom = [s \in Series |-> {}]
   /\ oghost = [s \in Series |-> {}]
-  /\ hdel = [s \in Series |-> {}] /\ htomb = [s \in Series |-> {}] /\ wino = [s \in Series |-> <<>>]
-  /\ hInit = FALSE /\ hMin = PosInf /\ hMax = NegInf /\ minValid = NegInf
+  /\ hdel = [s \in Series |-> {}] /\ htomb = [s \in Series |-> {}] /\ wino = [s \in Series |-> PreOf(s)]
+  /\ hInit = (PreT # {})
+  /\ hMin = IF PreT = {} THEN PosInf ELSE SetMin(PreT) - TOff
+  /\ hMax = IF PreT = {} THEN NegInf ELSE SetMax(PreT) - TOff
+  /\ minValid = NegInf
   /\ blk = [s \in Series |-> {}] /\ blkMax = NegInf /\ oooSeen = (W > 0)
   /\ app = [a \in Apps |-> NoApp]
-  /\ stored = [s \in Series |-> {}]
+  /\ stored = [s \in Series |-> Range(PreOf(s))]
   /\ kfset = {}
   /\ kindv = "any"
   /\ nops = 0
-  /\ hist = <<[a |-> "Init", R |-> R, W |-> W, cap |-> OOOCap]>>
+  /\ hist = <<[a |-> "Init", R |-> R, W |-> W, cap |-> OOOCap, pre |-> SetToSeq({x - TOff : x \in PreT})]>>
   /\ TLCSet(1, {})
 
 Step(rec) == /\ nops' = nops + 1
